@@ -809,6 +809,28 @@ def handle (line : String) : String :=
           if all.isEmpty then "OK" else String.intercalate " ; " all
         | _ => "SPEC C02:result-string-does-not-parse"
       | _ => "SPEC C01:no-result(" ++ goRes ++ ")"
+    | ["xres", _sc, _hx, _lim] =>
+      -- a result on an enlarged tree: the registered-type clauses of C02 need the enlarged tree and are left to
+      -- the xwalk ops; here: the string parses, the chain is rooted, and the reflexivity clauses of C15
+      match goRes.splitOn " " with
+      | [sh, pr, parents, bits] =>
+        let cls := ((pr.splitOn "|").getLast?).getD ""
+        let ps := if parents == "~" then [] else parents.splitOn ","
+        let rooted := match ps.getLast? with
+          | some p => p == bhex mimeOctet
+          | none => sh == bhex mimeOctet
+        let c2 := if cls != "none" then "" else if !rooted then "SPEC C02:chain-not-rooted-at-octet-stream" else ""
+        let b := bits.toList
+        let c15 :=
+          if cls != "none" then ""   -- a name that does not parse as a media type is outside the clause
+          else if b.getD 0 'F' != 'T' then "SPEC C15:result-is-not-itself"
+          else if b.getD 1 'F' != 'T' then "SPEC C15:equalsany-not-reflexive-on-result"
+          -- Lookup compares names verbatim ("exact match", anchor of the property) and the property's Lookup
+          -- clauses are about names registered in normal form, as tree.go does: not judged for these extensions
+          else ""
+        let all := [c2, c15].filter (· != "")
+        if all.isEmpty then "OK" else String.intercalate " ; " all
+      | _ => if goRes == "BADSCRIPT" then "SKIP bad-script" else "SPEC C01:no-result(" ++ goRes ++ ")"
     | ["treeeq"] =>
       let m := String.intercalate " " (dumpTree Gen.builtin)
       if m == goRes then "OK" else s!"DIFF tree model={m}"
